@@ -106,7 +106,7 @@ def scenario(idx, root, mat, kind, combo, fstate, helper):
     for p in (cli or []):
         extra += ["--root-cert", p]
     dmn = flow.Daemon(cfg_path, extra_args=extra)
-    flow.wait_for(lambda: len(flow.post_ops(log)) >= 1 or not dmn.alive(), 25)
+    flow.wait_progress(lambda: len(flow.post_ops(log)) >= 1 or not dmn.alive(), lambda: len(ca.log), idle=25, cap=300)
     rc = dmn.stop()
     ca.stop()
     reqs = [e for e in ca.log if e["kind"] == "req"]
